@@ -29,6 +29,8 @@ type Val struct {
 	assumed    bool // exactness rests on an unproven side-condition (recorded as issue)
 	shadow     int  // shadow atom id used by the relational bound prover (0 = none)
 	ikind      int8 // index arithmetic: 1 = untyped integer literal, 2 = Go `int` (len, a := of a literal, int(...)); 0 = a machine word
+	byteBase   *Val // this value is byteBase >> (8*byteIdx) (octet decomposition of a word, see bytesOf)
+	byteIdx    int
 }
 
 type origin struct {
@@ -180,6 +182,7 @@ type interp struct {
 	pkgInits []string
 	pkgVals  map[*varInfo]value
 	pkgBusy  map[*varInfo]bool
+	byteDec  map[*Val][]*Val // octet decomposition of a word (bytesOf)
 }
 
 func newInterp(ld *loader) *interp {
@@ -658,6 +661,9 @@ func (in *interp) opShr(x, k *Val) (*Val, error) {
 	if c, ok := x.constant(); ok {
 		return in.constVal(new(big.Int).Rsh(c, n)), nil
 	}
+	if n == 0 {
+		return x, nil // a shift by zero is the identity
+	}
 	// (u | -u) >> 63: the top bit of u or of its two's complement is set iff u != 0 (u = 0: both are 0; otherwise
 	// u >= 2^63, or u < 2^63 and then -u = 2^64 - u > 2^63), i.e. the borrow of 0 - u
 	if n == 63 && x.org != nil && x.org.op == "or" && len(x.org.args) == 2 {
@@ -669,6 +675,27 @@ func (in *interp) opShr(x, k *Val) (*Val, error) {
 	}
 	if new(big.Int).Rsh(x.hi, n).Sign() == 0 {
 		return in.constInt(0), nil
+	}
+	if n%8 == 0 && n > 0 && n < 64 && x.lo.Sign() >= 0 && x.hi.Cmp(bigWm1) <= 0 {
+		// a shift by whole octets: x = sum b_i 256^i with one octet decomposition per word, so that the shifts of one
+		// word by 8, 16, ... 56 (and their low octets) are expressed in the same eight symbols
+		bs := in.bytesOf(x)
+		k := int(n / 8)
+		if k == 7 {
+			return bs[7], nil // the top octet itself
+		}
+		tp, rp := pInt64(0), pInt64(0)
+		for i, b := range bs {
+			if i >= k {
+				tp = pAdd(tp, pScale(b.p, new(big.Int).Lsh(big1, uint(8*(i-k)))))
+			} else {
+				rp = pAdd(rp, pScale(b.p, new(big.Int).Lsh(big1, uint(8*i))))
+			}
+		}
+		rv := in.derived(rp, big0, minBig(new(big.Int).Sub(new(big.Int).Lsh(big1, n), big1), x.hi), &origin{op: "shrlo", args: []*Val{x}, k: int(n)})
+		t := in.derived(tp, new(big.Int).Rsh(x.lo, n), new(big.Int).Rsh(x.hi, n), &origin{op: "shr", args: []*Val{x, rv}, k: int(n)})
+		t.byteBase, t.byteIdx = x, k
+		return t, nil
 	}
 	// x = 2^n * t + r with 0 <= r < 2^n; r is a fresh symbol, t = (x - r)/2^n.
 	pw := new(big.Int).Lsh(big1, n)
@@ -762,4 +789,29 @@ func (in *interp) binary(op token.Token, x, y *Val) (*Val, error) {
 		return in.opShl(x, y)
 	}
 	return nil, fmt.Errorf("operator %s", op)
+}
+
+// bytesOf decomposes a 64-bit word into its eight octets: b_0 .. b_6 are fresh symbols in [0,255] (the octets the
+// machine word has), b_7 = (x - sum_{i<7} b_i 256^i) / 256^7, so that sum b_i 256^i = x holds identically.
+func (in *interp) bytesOf(x *Val) []*Val {
+	if in.byteDec == nil {
+		in.byteDec = map[*Val][]*Val{}
+	}
+	if bs, ok := in.byteDec[x]; ok {
+		return bs
+	}
+	var bs []*Val
+	low := pInt64(0)
+	b255 := big.NewInt(255)
+	for i := 0; i < 7; i++ {
+		hi := minBig(b255, new(big.Int).Rsh(x.hi, uint(8*i)))
+		b := in.newAtom("octet", "", big0, hi)
+		b.org = &origin{op: "shrlo", args: []*Val{x}, k: 8 * (i + 1)}
+		bs = append(bs, b)
+		low = pAdd(low, pScale(b.p, new(big.Int).Lsh(big1, uint(8*i))))
+	}
+	top := in.derived(pDivInt(pSub(x.p, low), new(big.Int).Lsh(big1, 56)), big0, minBig(b255, new(big.Int).Rsh(x.hi, 56)), &origin{op: "byte", args: []*Val{x}, k: 56})
+	bs = append(bs, top)
+	in.byteDec[x] = bs
+	return bs
 }
